@@ -104,7 +104,9 @@ func (rr *dependencyResolver) listPackageFiles(_ context.Context, pkgName string
 		return []string{}, nil
 	}
 
-	files := rr.deps.ListDependencyFiles(root)
+	// with the trailing slash: the files in this directory, not those of a
+	// package whose directory name merely starts the same (foo/v1, foo/v10)
+	files := rr.deps.ListDependencyFiles(root + "/")
 	if len(files) == 0 {
 		return nil, fmt.Errorf("no files for package at %s", root)
 	}
